@@ -1066,6 +1066,7 @@ class Interp:
                 if n == "String":
                     payload = Seq("str(%s)" % v.name, Aff.sym("len(str(%s))" % v.name), kind="str", attrs={"json": v.name})
             s2.refine[v.id] = mk(s2, v, n) if mk else Struct(adt, n, {"0": payload})
+            s2.facts[("refined_from", id(s2.refine[v.id]))] = v.name      # which opaque value this variant is a refinement of
             s2.cond.append("%s is %s" % (v.name, n))
             out.append((s2, tgt))
         return out
